@@ -379,3 +379,15 @@ void bad_argument (svalue_t * val, int type, int arg, int instr) {
 
   error (msg);
 }
+
+#ifdef NEOLITH_VERIF
+/* verification hooks (H2): read-only views of file-static state */
+int verif_error_context_depth (void) {
+  int depth = 0;
+  error_context_t *ec = current_error_context;
+  while (ec) { depth++; ec = ec->save_context; }
+  return depth;
+}
+int verif_in_error (void) { return in_error; }
+int verif_in_mudlib_error_handler (void) { return in_mudlib_error_handler; }
+#endif
